@@ -12,6 +12,18 @@ WHERES = [None, None, "size > 10", "name like '%a%'", "not is_dir", "uid = 1", "
 INT_AGGS = ["count", "sum", "min", "max"]
 
 
+def _s(k, v):
+    return "%s === '%s'" % (k, v)
+
+
+def _n(k, v):
+    return "%s = %s" % (k, v)
+
+
+RESTRICT = {"ext": _s, "dir": _s, "name": _s, "lower(ext)": _s, "mode": _s, "uid": _n, "gid": _n, "length(name)": _n,
+            "is_dir": _n, "is_file": _n}
+
+
 def build(rng, root):
     nodes = tree.gen_tree(rng, max_entries=45, max_depth=3, kinds=("file", "dir", "symlink"), odd=0.15)
     for n in nodes:
@@ -140,6 +152,39 @@ def run_job(job):
                             res.viol("group SUMs add up to %d, ungrouped SUM is %s" % (sum(int(row[i]) for row in out), tot[1]), ctx)
                             continue
                     res.count("conservation_checked")
+            # "the aggregates it would get from the ungrouped query restricted to key = value": one group per query
+            if out and all(k in RESTRICT for k in keys):
+                row = rng.choice(out)
+                kv = row[:len(keys)]
+                if all("'" not in v and "\\" not in v for v in kv):
+                    cond = " and ".join(RESTRICT[k](k, v) for k, v in zip(keys, kv))
+                    wr = " where %s%s" % ("(%s) and " % where if where else "", cond)
+                    rr = run("%s, %s from t%s into list" % (", ".join(keys), inner, wr))
+                    same = False
+                    if rr.verdict == "ok" and rr.rc == 0 and not rr.err:
+                        try:
+                            rrows = rr.rows(len(keys) + 1) if rr.out else []
+                            same = sorted(int(x[-1]) for x in rrows) == sorted(groups[tuple(kv)]) and all(tuple(x[:-1]) == tuple(kv) for x in rrows)
+                        except ValueError:
+                            same = False
+                    if same:      # the restriction selects exactly this group's entries (otherwise it is C02's business, not ours)
+                        qr = "%s from t%s into list" % (", ".join(cols[len(keys):]), wr)
+                        ra = run(qr)
+                        ctx["restricted_query"] = qr
+                        if ra.verdict == "ok":
+                            if ra.rc != 0 or ra.err:
+                                res.viol("`%s`: status %s stderr %r" % (qr, ra.rc, ra.err[:120]), ctx)
+                                continue
+                            cells = ra.rows()
+                            if len(cells) != len(fns):
+                                res.viol("`%s`: %d cells for %d aggregates" % (qr, len(cells), len(fns)), ctx)
+                                continue
+                            diff = [(c, a, b) for c, a, b in zip(cols[len(keys):], row[len(keys):], cells)
+                                    if a != b and not (len(groups[tuple(kv)]) < 2 and c.split("(")[0] in ("var_samp", "stddev_samp", "var_pop", "stddev_pop"))]
+                            if diff:
+                                res.viol("group %s shows %s = %r, the ungrouped query restricted to that key shows %r" % (kv, diff[0][0], diff[0][1], diff[0][2]), ctx)
+                                continue
+                            res.count("restricted_compared")
             if okey and len(out) >= 2:
                 oi, desc = okey
                 numeric = oi >= len(keys) or keys[oi] in ("uid", "gid", "length(name)")
@@ -173,9 +218,9 @@ def main(chk):
         rule="random trees x grouping keys from ext, dir, is_dir, is_file, mode, uid, gid, length(name) (single and pairs) x aggregate lists "
              "x optional WHERE x optional ORDER BY on a key, an integer aggregate or AVG (asc/desc, explicit or positional). (key, value) "
              "pairs come from `keys, x from t where W`; one group row per distinct key, each aggregate recomputed exactly over that group's "
-             "rows, group COUNTs/SUMs add up to the ungrouped query's, ordered group rows sorted. Non-trivial = >= 2 groups; distinct by "
+             "rows, group COUNTs/SUMs add up to the ungrouped query's, one group per query compared cell by cell with the ungrouped aggregate query restricted to `key = value` (only when that restriction returns exactly the group's rows), ordered group rows sorted. Non-trivial = >= 2 groups; distinct by "
              "(keys, functions, where, order, groups).",
         assumptions=["group rows may come in any order unless ORDER BY is given", "numeric order keys compare as numbers, others by code point",
                      "sample statistics of single-row groups are don't-care"],
-        require={"keys": 10, "order_kinds": 6, "conservation_checked": 20},
+        require={"keys": 10, "order_kinds": 6, "conservation_checked": 20, "restricted_compared": 20},
     )
